@@ -1,21 +1,27 @@
 import Driver.UnicodeDrv
+import Driver.RenderDrv
 open Unc
 
-/-- try every handler in turn; a request nobody understands is `bad-op` -/
-def dispatch (ws : List String) : String :=
-  let hs : List (List String → Option String) := [handleUnicode]
-  match hs.findSome? (fun h => h ws) with
+/-- try every handler in turn; a request nobody understands is `bad-op`.
+    `blk` = the payload lines (those sent with a leading `+`) preceding the request. -/
+def dispatch (ws : List String) (blk : Array String) : String :=
+  let hs : List (List String → Array String → Option String) :=
+    [fun w _ => handleUnicode w, handleRender]
+  match hs.findSome? (fun h => h ws blk) with
   | some r => r
   | none => "bad-op"
 
-partial def loop (h : IO.FS.Stream) (out : IO.FS.Stream) : IO Unit := do
+partial def loop (h : IO.FS.Stream) (out : IO.FS.Stream) (blk : Array String) : IO Unit := do
   let line ← h.getLine
   if line.isEmpty then return ()
-  let ws := (line.trimAscii.toString.splitOn " ").filter (· ≠ "")
-  out.putStrLn (dispatch ws)
-  loop h out
+  if line.startsWith "+" then
+    loop h out (blk.push (line.drop 1).trimAscii.toString)
+  else
+    let ws := (line.trimAscii.toString.splitOn " ").filter (· ≠ "")
+    out.putStrLn (dispatch ws blk)
+    loop h out #[]
 
 def main : IO Unit := do
   let out ← IO.getStdout
-  loop (← IO.getStdin) out
+  loop (← IO.getStdin) out #[]
   out.flush
